@@ -48,15 +48,17 @@ const (
 )
 
 var (
-	ErrNotExist   = os.ErrNotExist
-	ErrExist      = os.ErrExist
-	ErrPermission = os.ErrPermission
-	ErrInvalid    = os.ErrInvalid
-	ErrClosed     = os.ErrClosed
-	Stderr        = os.Stderr
-	Stdout        = os.Stdout
-	Stdin         = os.Stdin
-	Args          = os.Args
+	ErrNotExist         = os.ErrNotExist
+	ErrExist            = os.ErrExist
+	ErrPermission       = os.ErrPermission
+	ErrInvalid          = os.ErrInvalid
+	ErrClosed           = os.ErrClosed
+	ErrDeadlineExceeded = os.ErrDeadlineExceeded
+	ErrNoDeadline       = os.ErrNoDeadline
+	Stderr              = os.Stderr
+	Stdout              = os.Stdout
+	Stdin               = os.Stdin
+	Args                = os.Args
 )
 
 func IsNotExist(err error) bool         { return os.IsNotExist(err) }
@@ -533,6 +535,27 @@ func MkdirAll(path string, perm FileMode) error {
 		return err
 	}
 	return nil
+}
+
+func Truncate(name string, size int64) error {
+	if err := begin("truncate", true, name); err != nil {
+		return err
+	}
+	return os.Truncate(name, size)
+}
+
+func Chown(name string, uid, gid int) error {
+	if err := begin("chown", true, name); err != nil {
+		return err
+	}
+	return os.Chown(name, uid, gid)
+}
+
+func MkdirTemp(dir, pattern string) (string, error) {
+	if err := begin("mkdir", true, dir); err != nil {
+		return "", err
+	}
+	return os.MkdirTemp(dir, pattern)
 }
 
 func ReadDir(name string) ([]DirEntry, error) {
